@@ -512,4 +512,24 @@ def TmpStore.state (ts : TmpStore) : SpState := { position := ts.position, index
 def TmpStore.reset (ts : TmpStore) (st : SpState) : TmpStore :=
   { ts with index := st.index, position := st.position }
 
+/-- what a connection does to its TmpStore after a savepoint was taken -/
+inductive TsOp where
+  | store (oid : Nat) (b : Bytes) (len : Nat)     -- a later savepoint stores a blob
+  | rollback (st : SpState)                        -- rollback to some savepoint state
+deriving DecidableEq, Repr
+
+def TmpStore.apply (ts : TmpStore) : TsOp → TmpStore
+  | .store oid b len => ts.storeBlob oid b len
+  | .rollback st => ts.reset st
+
+def runTs (ts : TmpStore) (ops : List TsOp) : TmpStore := ops.foldl TmpStore.apply ts
+
+/-- every indexed record lies below the write position -/
+def TsInv (ts : TmpStore) : Prop := ∀ e ∈ ts.index, e.2 < ts.position
+
+/-- rollbacks after a savepoint with write position `base` go to savepoints taken later -/
+def TsOp.After (base : Nat) : TsOp → Prop
+  | .store _ _ _ => True
+  | .rollback st => base ≤ st.position
+
 end ZodbModel.Blob
